@@ -109,6 +109,12 @@ def gen_cases(ctx):
             if w in (0, 3):
                 add("pipeline-conderr-then-cancel-%d-%d" % (k, w), tasks2, [{"op": "pipeline", "stages": st2}, {"op": "cancel_sync"}])
                 add("pipeline-ext-then-cancel-%d-%d" % (k, w), tasks, [{"op": "cancel", "after_ms": 500}, {"op": "pipeline", "stages": stages}, {"op": "cancel_sync"}])
+    # Scheduler.Cancel has COMPLETED before the pipeline run is started: nothing is started any more - no task, and no stage-condition program either
+    # (the program leaves a mark when it is run); stages that allow failure included
+    for allow in (False, True):
+        add("sched-cancelled-before-run%s" % ("-allow" if allow else ""), [task(0, ["0.05"]), task(1, ["0.05"]), task(2, ["0.05"])],
+            [{"op": "pipeline", "after_ms": -1, "stages": [{"task": 0, "deps": [], "allow": allow, "cond": "@CONDPROG@"}, {"task": 1, "deps": [0], "allow": allow},
+                                                          {"task": 2, "deps": [], "allow": allow}]}])
     return cases
 
 
@@ -141,9 +147,21 @@ def run(ctx):
     elif not ctx.replay_cases:
         schedlib.nested_conderr_cli(ctx, res)
     cases = ctx.replay_cases if ctx.replay_cases else gen_cases(ctx)
+    import os
     for k, c in enumerate(cases):
         c["id"] = k
         c["dir"] = ctx.workdir
+        for p_ in c["plan"]:
+            for st in p_.get("stages", []):
+                if st.get("cond", "").startswith("@CONDPROG@") or st.get("cond", "").endswith(".condprog.sh"):
+                    prog = os.path.join(ctx.workdir, "c12_%d.condprog.sh" % k)
+                    os.makedirs(ctx.workdir, exist_ok=True)
+                    with open(prog, "w") as fh:
+                        fh.write('#!/bin/sh\necho "start.9.0 $(date +%%s%%N)" >> "%s.marks"\nexit 0\n' % prog)
+                    os.chmod(prog, 0o755)
+                    if os.path.exists(prog + ".marks"):
+                        os.remove(prog + ".marks")
+                    st["cond"] = prog
     obs = vlib.run_children(ctx.workdir, "taskrun", cases, timeout=35)
     items = []
     for c in cases:
@@ -160,7 +178,12 @@ def run(ctx):
         pipes = [p for p in c["plan"] if p["op"] == "pipeline"]
         if pipes and not crashed and not hung:
             cancels_ok = cancels_ok and len(o.get("pipe_err") or []) == len(pipes)      # the pipeline run returned
-        toks = TOK.findall("\n".join(o.get("trace") or []))
+        marks = []
+        for p_ in c["plan"]:
+            for st in p_.get("stages", []):
+                if st.get("cond", "").endswith(".condprog.sh") and os.path.exists(st["cond"] + ".marks"):
+                    marks += open(st["cond"] + ".marks").read().split("\n")
+        toks = TOK.findall("\n".join((o.get("trace") or []) + marks))
         first_cancel = min(o.get("cancel_done_ns") or [0]) if o.get("cancel_done_ns") else None
         late = sum(1 for kind, r, k, ts in toks if kind == "start" and first_cancel is not None and int(ts) > first_cancel)
         runs = []
